@@ -231,6 +231,7 @@ func clientPool(c *clientRec) int {
 }
 
 type c03State struct {
+	late         bool
 	sameSid      bool
 	distinctSids int
 	w            *world
@@ -268,6 +269,8 @@ func init() {
 			sameSid := x.Cfg["dup"] == "1" && nP >= 2 && vs.Choose("samesid", 2) == 1
 			// the proxies arrive together, or 100 ms apart (all are waiting when the clients come at 1 s)
 			stagger := x.Cfg["stagger"] == "1" && vs.Choose("stagger", 2) == 1
+			// late: the clients come at 15 s, when every poll has ended unanswered: nobody is waiting any more
+			late := x.Cfg["late"] == "1" && vs.Choose("late", 2) == 1
 			w := newWorld()
 			st := &c03State{w: w}
 			x.User = st
@@ -299,9 +302,17 @@ func init() {
 				if i == 0 && absentFirst {
 					fp = fpAbsent
 				}
-				w.addClient(n, fp, time.Second, viaIPC)
+				at := time.Second
+				if late {
+					at = 15 * time.Second
+				}
+				w.addClient(n, fp, at, viaIPC)
 			}
+			st.late = late
 			var sb strings.Builder
+			if late {
+				sb.WriteString("clients-after-all-polls-ended ")
+			}
 			for _, p := range w.proxies {
 				fmt.Fprintf(&sb, "P%d(%s,%s,%d,arr=%v) ", p.idx, p.sid, p.natWire, p.clients, p.arrive)
 			}
@@ -364,7 +375,17 @@ func init() {
 			}
 			poolSize := [2]int{}
 			for _, p := range w.proxies {
-				poolSize[proxyPool(p)]++
+				if !st.late {
+					poolSize[proxyPool(p)]++
+				}
+			}
+			if st.late {
+				// every poll ended ("no match") five seconds before the clients came: nobody may be matched
+				for _, c := range w.clients {
+					if p := holder[c.offer]; p != nil {
+						x.Fail("availability", "matched-with-a-proxy-that-had-left", "client c%d was matched with proxy %s, whose poll had ended unanswered", c.idx, p.sid)
+					}
+				}
 			}
 			matchedFrom := [2]int{}
 			for _, c := range w.clients {
